@@ -95,6 +95,11 @@ func (r Resources) Validate(bucket string) error {
 		if !strings.HasPrefix(resource, bucket) {
 			return policyErrInvalidResource
 		}
+		// the bucket name must be the whole first path element: for bucket
+		// "b" the resource "b2/*" belongs to another bucket
+		if len(resource) > len(bucket) && resource[len(bucket)] != '/' {
+			return policyErrInvalidResource
+		}
 	}
 
 	return nil
